@@ -373,15 +373,36 @@ def edge_notations(cfg, fi):
     )
 
 
-def edges_float(F, cfg, fi):
-    """the constructor's edge computation, in floats (only used as centres of certified enclosures)"""
-    from pydrobert.speech.alias import alias_factory_subclass_from_arg
-    from pydrobert.speech.scales import ScalingFunction
+def edges_mp(cfg, fi):
+    """the constructor's edge computation at 40 digits (mpmath); only used as centres of the
+    enclosures that Coq then certifies against the model, so that float round-off of the
+    harness cannot make an enclosure miss"""
+    import mpmath as mp
 
-    sf = alias_factory_subclass_from_arg(ScalingFunction, dict(cfg["scale"]))
-    lo, hi = sf.hertz_to_scale(cfg["low_hz"]), sf.hertz_to_scale(eff_high(cfg))
+    mp.mp.dps = 40
+    sc = cfg["scale"]
+    name = sc["name"]
+    if name == "mel":
+        h2s = lambda f: 1127 * mp.log(1 + mp.mpf(f) / 700)
+        s2h = lambda x: 700 * (mp.exp(x / 1127) - 1)
+    elif name == "linear":
+        lo_, sl = mp.mpf(sc["low_hz"]), mp.mpf(sc["slope_hz"])
+        h2s = lambda f: (mp.mpf(f) - lo_) * sl
+        s2h = lambda x: x / sl + lo_
+    elif name == "octave":
+        lo_ = max(mp.mpf(10) ** -10, mp.mpf(sc["low_hz"]))
+        h2s = lambda f: mp.log(mp.mpf(f) / lo_) / mp.log(2)
+        s2h = lambda x: mp.mpf(2) ** x * lo_
+    else:
+        raise ValueError(name)
+    lo, hi = h2s(cfg["low_hz"]), h2s(eff_high(cfg))
     dl = (hi - lo) / (cfg["num_filts"] + 1)
-    return float(sf.scale_to_hertz(lo + dl * (fi + 0.5))), float(sf.scale_to_hertz(lo + dl * (fi + 1.5)))
+    return mp, s2h(lo + dl * (fi + mp.mpf(1) / 2)), s2h(lo + dl * (fi + mp.mpf(3) / 2))
+
+
+def rad(v):
+    """radius of the enclosure around float(v), v known to 40 digits"""
+    return 4e-16 * max(abs(float(v)), 1e-300)
 
 
 def stage(uid, items):
@@ -407,24 +428,24 @@ def int_bounds(expr, n, tol=1e-7):
 def gabor_goals(G, np, cfg, bank, fi, rng, F=None):
     uid = "g%d" % len(G.items)
     l2 = b(cfg["scale_l2_norm"])
-    e0f, e1f = edges_float(F, cfg, fi)
-    cf = (e0f + e1f) / 2
-    bw = math.sqrt(math.pi) / 2 if cfg["erb"] else math.sqrt(0.3 * math.log(10))
-    sdf = bw / ((cf - e0f) * 2 * math.pi / cfg["rate"])
-    xif = cf * 2 * math.pi / cfg["rate"]
-    eps = G.eps
-    fsc = -2 * math.log(eps) + ((math.log(2) + 0.5 * math.log(math.pi)) if cfg["scale_l2_norm"] else 0.0)
-    rad = (math.log(sdf) + fsc) if cfg["scale_l2_norm"] else fsc
-    if rad <= 0:
+    mp, e0m, e1m = edges_mp(cfg, fi)
+    cm = (e0m + e1m) / 2
+    bwm = mp.sqrt(mp.pi) / 2 if cfg["erb"] else mp.sqrt(mp.mpf(3) / 10 * mp.log(10))
+    sdm = bwm / ((cm - e0m) * 2 * mp.pi / cfg["rate"])
+    xim = cm * 2 * mp.pi / cfg["rate"]
+    epsm = mp.mpf(repr(G.eps))
+    fscm = -2 * mp.log(epsm) + ((mp.log(2) + mp.log(mp.pi) / 2) if cfg["scale_l2_norm"] else 0)
+    radm = (mp.log(sdm) + fscm) if cfg["scale_l2_norm"] else fscm
+    if radm <= 0:
         return
-    dangf = math.sqrt(rad) / sdf
+    dangm = mp.sqrt(radm) / sdm
+    sdf, xif, dangf = float(sdm), float(xim), float(dangm)
     pre0 = edge_notations(cfg, fi) + (
         "Local Notation sd := (gabor_std %s rate e0 e1) (only parsing).\n" % b(cfg["erb"])
         + "Local Notation xi := (h2a ((e0 + e1) / 2) rate) (only parsing).\n"
         + "Local Notation dang := (gabor_diff_ang eps %s sd) (only parsing).\n" % l2
     )
-    pre = pre0 + stage(uid, [("dang", "dang", dangf, 1e-12 * max(1.0, dangf)), ("sd", "sd", sdf, 1e-13 * sdf),
-                             ("xi", "xi", xif, 2e-14 * max(xif, 1e-3))])
+    pre = pre0 + stage(uid, [("dang", "dang", dangf, rad(dangm)), ("sd", "sd", sdf, rad(sdm)), ("xi", "xi", xif, rad(xim))])
     ST = "stage_%s. unfold src_eps in *. c07." % uid
     base = dict(config=cfg, filt_idx=fi)
     c = bank.centers_hz[fi]
@@ -479,16 +500,18 @@ def gammatone_goals(G, np, cfg, bank, fi, rng, F=None):
     n = cfg["order"]
     mc = cfg["max_centered"]
     eps = G.eps
-    e0f, e1f = edges_float(F, cfg, fi)
-    cf = (e0f + e1f) / 2
-    xif = cf * 2 * math.pi / cfg["rate"]
+    mp, e0m, e1m = edges_mp(cfg, fi)
+    cm = (e0m + e1m) / 2
+    xim = cm * 2 * mp.pi / cfg["rate"]
+    epsm = mp.mpf(repr(eps))
     if cfg["erb"]:
-        ac = math.log(2) * (2 * n - 1) + 2 * math.log(math.factorial(n - 1)) - math.log(math.factorial(2 * n - 2)) - math.log(2 * math.pi)
+        acm = mp.log(2) * (2 * n - 1) + 2 * mp.log(mp.factorial(n - 1)) - mp.log(mp.factorial(2 * n - 2)) - mp.log(2 * mp.pi)
     else:
-        ac = -0.5 * math.log(4 * 2 ** (1 / n) - 4)
-    laf = ac + math.log((e1f - e0f) * 2 * math.pi / cfg["rate"])
-    lcf = n * laf - math.log(math.factorial(n - 1))
-    dangf = math.sqrt(math.exp((2 / n) * (lcf + math.log(math.factorial(n - 1)) - math.log(eps))) - math.exp(2 * laf))
+        acm = -mp.log(4 * mp.mpf(2) ** (mp.mpf(1) / n) - 4) / 2
+    lam = acm + mp.log((e1m - e0m) * 2 * mp.pi / cfg["rate"])
+    lcm = n * lam - mp.log(mp.factorial(n - 1))
+    dangm = mp.sqrt(mp.exp((mp.mpf(2) / n) * (lcm + mp.log(mp.factorial(n - 1)) - mp.log(epsm))) - mp.exp(2 * lam))
+    laf, xif, dangf = float(lam), float(xim), float(dangm)
     pre0 = edge_notations(cfg, fi) + (
         "Local Notation la := (gt_log_alpha %s %d rate e0 e1) (only parsing).\n" % (b(cfg["erb"]), n)
         + "Local Notation al := (exp la) (only parsing).\n"
@@ -498,8 +521,7 @@ def gammatone_goals(G, np, cfg, bank, fi, rng, F=None):
         + "Local Notation off := (gt_offset %s %d al) (only parsing).\n" % (b(mc), n)
         + "Local Notation dang := (gt_diff_ang eps %d lc la) (only parsing).\n" % n
     )
-    pre = pre0 + stage(uid, [("dang", "dang", dangf, 1e-12 * max(1.0, dangf)), ("la", "la", laf, 1e-13 * max(1.0, abs(laf))),
-                             ("xi", "xi", xif, 2e-14 * max(xif, 1e-3))])
+    pre = pre0 + stage(uid, [("dang", "dang", dangf, rad(dangm)), ("la", "la", laf, rad(lam)), ("xi", "xi", xif, rad(xim))])
     base = dict(config=cfg, filt_idx=fi)
     U = "stage_%s. unfold src_eps in *. c07." % uid
     U0 = U[:-1]
